@@ -385,6 +385,23 @@ class T(Entity):
         for k, L in enumerate([Leaf0, Leaf1, Leaf2, Leaf3, Leaf4, Leaf5, Leaf6]):
             L(a=self.a, y=outs[k])
 ''',
+    "portless-entity-instantiated": HDR + '''
+class Leaf(Entity):
+    def architecture(self):
+        s = Signal[Bit](False)
+        @std.concurrent
+        def logic():
+            s.next = ~s
+class T(Entity):
+    a = Port.input(Bit)
+    y = Port.output(Bit)
+    def architecture(self):
+        Leaf()
+        Leaf()
+        @std.concurrent
+        def logic():
+            self.y <<= self.a
+''',
     "inout-port-actuals": HDR + '''
 class LeafIo(Entity):
     d = Port.input(Bit)
